@@ -27,7 +27,7 @@ def range_run(maxlen):
     """Returns dict(cases, evaluations, bad, first, samples)."""
     d = vlib.scratch("range-")
     try:
-        consts = dict(MaxLen=maxlen, Sizes=set(SIZES), Toks=RANGE_TOKS, UnitPrefixes=RANGE_PREFIXES,
+        consts = dict(MaxLen=maxlen, Sizes=set(SIZES), Toks=RANGE_TOKS, UnitPrefixes=RANGE_PREFIXES, IfRangeOn=False,
                       CaseFile=os.path.join(d, "cases.ndjson"), ResultFile=os.path.join(d, "res.ndjson"))
         ncases, r = _gen_and_run("RangeGen", "RangeJudge", consts, "range", d, ["-sizes", ",".join(map(str, SIZES))])
         m = re.search(r'<<\s*"RANGE-RESULT",\s*(\d+),\s*(\d+),(.*)>>\s*\n', r["out"], re.S)
@@ -49,21 +49,36 @@ def range_run(maxlen):
         shutil.rmtree(d, ignore_errors=True)
 
 
-def key_run(maxsegs, wide=False):
+def key_run(maxsegs, wide=False, e2e=True):
     d = vlib.scratch("key-")
     try:
         consts = dict(Methods={"GET", "HEAD", "POST"} if wide else {"GET", "HEAD"},
                       Hosts={"h.example", "H.EXAMPLE", "other.example", "Other.Example"} if wide else {"h.example", "H.EXAMPLE", "other.example"},
                       Segs={"a", "b", ".", "..", "", "a|b", "a%7Cb", "a%3Fb"}, LastSegs={"a", "b", "a|b", "a%7Cb", "a%3Fb"},
-                      Queries={"NONE", "b", "c", "b|c", "x=1&y=2"}, MaxSegs=maxsegs,
-                      CaseFile=os.path.join(d, "cases.ndjson"), ResultFile=os.path.join(d, "res.ndjson"))
+                      Queries={"NONE", "b", "b=", "c", "b|c", "x=1&y=2", "y=2&x=1"}, MaxSegs=maxsegs,
+                      CaseFile=os.path.join(d, "cases.ndjson"), ResultFile=os.path.join(d, "res.ndjson"),
+                      E2EFile=os.path.join(d, "e2e.ndjson"))
         ncases, r = _gen_and_run("CacheKeyGen", "CacheKeyJudge", consts, "key", d)
         m = re.search(r'<<\s*"KEY-RESULT",\s*(\d+),\s*(\d+),\s*(\d+),\s*(\d+),(.*)>>\s*\n', r["out"], re.S)
         if not m:
             raise vlib.Inconclusive("key judge gave no result: %s" % r["out"][-2000:])
         sample = [json.loads(l) for i, l in enumerate(open(os.path.join(d, "cases.ndjson"))) if i % 397 == 0][:10]
-        return {"cases": ncases, "hexes": int(m.group(2)), "collisions": int(m.group(3)), "splits": int(m.group(4)),
-                "detail": " ".join(m.group(5).split())[:3000], "sample": sample}
+        res = {"cases": ncases, "hexes": int(m.group(2)), "collisions": int(m.group(3)), "splits": int(m.group(4)),
+               "detail": " ".join(m.group(5).split())[:3000], "sample": sample}
+        if e2e:
+            # the same targets through the real proxy (host spellings mapped to localhost / LOCALHOST / 127.0.0.1)
+            binp = vlib.go_build("relaydrv")
+            rc, out, err, _ = vlib.run_driver(binp, ["-mode", "key", "-in", os.path.join(d, "cases.ndjson"), "-out", os.path.join(d, "e2e.ndjson")],
+                                              cwd=d, timeout=1800)
+            if rc != 0 or "relaydrv done" not in out:
+                raise vlib.Inconclusive("relaydrv key failed (rc=%s): %s" % (rc, err[-1500:]))
+            r3 = vlib.tlc_check("CacheKeyE2E", vlib.cfg_text(consts, spec="Spec"), timeout=1200, workers=1, heap="16g")
+            m3 = re.search(r'<<\s*"KEY-E2E-RESULT",\s*(\d+),\s*(\d+),\s*(\d+),\s*(\d+),(.*)>>\s*\n', r3["out"], re.S)
+            if not m3:
+                raise vlib.Inconclusive("key e2e judge gave no result: %s" % r3["out"][-2000:])
+            res["e2e"] = {"cases": int(m3.group(1)), "wrong": int(m3.group(2)), "origin_gets_first_pass": int(m3.group(3)),
+                          "get_identities": int(m3.group(4)), "detail": " ".join(m3.group(5).split())[:2000]}
+        return res
     finally:
         shutil.rmtree(d, ignore_errors=True)
 
@@ -91,7 +106,7 @@ def size_run(maxlen):
 def parser_run(mode, cc_maxlen=3):
     d = vlib.scratch("inp-")
     try:
-        consts = dict(CCToks={"max-age=", "0", "9", "B20", "-", "no-store", "No-Cache", ",", "SP", "=", "private", "x", ";", "max-age"},
+        consts = dict(CCToks={"max-age=", "0", "9", "B20", "-", "no-store", "No-Cache", ",", "SP", "=", "private", "x", ";", "max-age", "QUOTE"},
                       CCMaxLen=cc_maxlen, ExpForms="<- ExpFormsDef", PhcFields="<- PhcFieldsDef", Mode=mode,
                       CaseFile=os.path.join(d, "cases.ndjson"), ResultFile=os.path.join(d, "res.ndjson"))
         ncases, r = _gen_and_run("InputsGen", "InputsJudge", consts, mode, d)
